@@ -28,9 +28,16 @@ type C05Case struct {
 const allocK = 1024
 const allocC = 1 << 20
 
+// measureAlloc: whether measureDecode reads the allocation counters (a stop-the-world operation whose
+// cost grows with the heap; the thorough tier measures every case whose kind is about lengths or
+// counts and one in eight of the others)
+var measureAlloc = true
+
 func measureDecode(target Codec, data []byte) (outcome string, pos int, alloc uint64) {
 	var m0, m1 runtime.MemStats
-	runtime.ReadMemStats(&m0)
+	if measureAlloc {
+		runtime.ReadMemStats(&m0)
+	}
 	// a decoder that does not terminate cannot be stopped from outside: it runs in its own goroutine
 	// and is given up after hangAfter (outcome "hang"; the caller reports and ends the run)
 	type res struct {
@@ -42,11 +49,16 @@ func measureDecode(target Codec, data []byte) (outcome string, pos int, alloc ui
 		o, p := Decode(target, data)
 		ch <- res{o, p}
 	}()
+	tm := time.NewTimer(hangAfter)
 	select {
 	case r := <-ch:
+		tm.Stop()
 		outcome, pos = r.o, r.p
-	case <-time.After(hangAfter):
+	case <-tm.C:
 		return "hang", 0, 0
+	}
+	if !measureAlloc {
+		return outcome, pos, 0
 	}
 	runtime.ReadMemStats(&m1)
 	return outcome, pos, m1.TotalAlloc - m0.TotalAlloc
@@ -250,6 +262,75 @@ func (e *Engine) RunC05(perType int) {
 			e.Res.Fatal(e.Opts.Out, err)
 		}
 	}
+	// the cases are judged in batches (the thorough tier has millions of them)
+	stopped := false
+	flush := func() {
+		if stopped || len(pend) == 0 {
+			pend, lines = pend[:0], lines[:0]
+			return
+		}
+		ans, err := e.M.Batch(lines)
+		if err != nil {
+			e.Res.Fatal(e.Opts.Out, err)
+		}
+		for i, p := range pend {
+			s := e.St[p.ti.Name]
+			tgt := p.ti.New()
+			measureAlloc = !e.Opts.Thorough() || i%8 == 0 || strings.Contains(p.cs.Kind, "len") || strings.Contains(p.cs.Kind, "count") || strings.Contains(p.cs.Kind, "array")
+			out, pos, alloc := measureDecode(tgt, p.b)
+			if out == "hang" {
+				small := p.cs
+				if len(small.Hex) > 4000 {
+					small.Hex = small.Hex[:4000]
+				}
+				e.Res.Violate(common.Violation{Signature: "C05:hang:generated-ReadFrom", What: fmt.Sprintf("decoding %d hostile bytes did not return within %v", len(p.b), hangAfter),
+					Case: common.Case{Stream: "schema", Op: small, Impl: out}})
+				// the decoder is still spinning in its goroutine (and still writing to tgt): end the stream
+				stopped = true
+				break
+			}
+			got := ImplAnswer(out, pos, reflect.ValueOf(tgt).Elem(), s)
+			cls := "err"
+			if out == "ok" {
+				cls = "ok"
+			} else if out != "err" {
+				cls = PanicClass(out)
+			}
+			kind := p.cs.Kind
+			if j := strings.Index(kind, ":"); j > 0 {
+				kind = kind[:j]
+			}
+			key := p.ti.Name + "/" + common.Hex(p.b)
+			if len(key) > 160 {
+				key = key[:160]
+			}
+			e.Res.Count(key, kind+":"+cls, len(p.b) > 0)
+			if i%1499 == 0 {
+				e.Res.Sample(map[string]interface{}{"type": p.ti.Name, "kind": p.cs.Kind, "bytes": trunc(common.Hex(p.b)), "impl": trunc(got), "alloc": alloc})
+			}
+			small := p.cs
+			if len(small.Hex) > 4000 {
+				small.Hex = small.Hex[:4000]
+			}
+			// oracle
+			if strings.HasPrefix(cls, "panic") {
+				e.Res.Violate(common.Violation{Signature: "C05:" + strings.Replace(cls, ":", "-", 1) + ":" + PanicLocus(out), What: "decoding hostile bytes panicked: " + out,
+					Case: common.Case{Stream: "schema", Op: small, Impl: out}})
+			}
+			if alloc > uint64(allocK*len(p.b)+allocC) {
+				e.Res.Violate(common.Violation{Signature: "C05:alloc-unbounded:generated-ReadFrom", What: fmt.Sprintf("decoding %d bytes allocated %d bytes (bound %d·len+%d)", len(p.b), alloc, allocK, allocC),
+					Case: common.Case{Stream: "schema", Op: small, Impl: fmt.Sprint(alloc)}})
+			}
+			e.Res.TracesValidated++
+			if ans[i] == common.NoModel {
+				continue
+			}
+			if cm := CanonModelAnswer(ans[i], len(p.b)); cm != got {
+				e.Res.Diverge(common.Case{Stream: "schema", Op: small, Model: trunc(cm), Impl: trunc(got)})
+			}
+		}
+		pend, lines = pend[:0], lines[:0]
+	}
 	for _, ti := range e.Types {
 		s := e.St[ti.Name]
 		if e.Opts.Replay != "" {
@@ -274,66 +355,12 @@ func (e *Engine) RunC05(perType int) {
 				pend = append(pend, pending{ti, cs, b})
 				lines = append(lines, fmt.Sprintf("dec %s fresh %s", s.Name, common.Hex(b)))
 			}
-		}
-	}
-	ans, err := e.M.Batch(lines)
-	if err != nil {
-		e.Res.Fatal(e.Opts.Out, err)
-	}
-	for i, p := range pend {
-		s := e.St[p.ti.Name]
-		tgt := p.ti.New()
-		out, pos, alloc := measureDecode(tgt, p.b)
-		if out == "hang" {
-			small := p.cs
-			if len(small.Hex) > 4000 {
-				small.Hex = small.Hex[:4000]
+			if len(pend) >= 20000 {
+				flush()
 			}
-			e.Res.Violate(common.Violation{Signature: "C05:hang:generated-ReadFrom", What: fmt.Sprintf("decoding %d hostile bytes did not return within %v", len(p.b), hangAfter),
-				Case: common.Case{Stream: "schema", Op: small, Impl: out}})
-			// the decoder is still spinning in its goroutine (and still writing to tgt): end the stream
-			break
-		}
-		got := ImplAnswer(out, pos, reflect.ValueOf(tgt).Elem(), s)
-		cls := "err"
-		if out == "ok" {
-			cls = "ok"
-		} else if out != "err" {
-			cls = PanicClass(out)
-		}
-		kind := p.cs.Kind
-		if j := strings.Index(kind, ":"); j > 0 {
-			kind = kind[:j]
-		}
-		key := p.ti.Name + "/" + common.Hex(p.b)
-		if len(key) > 160 {
-			key = key[:160]
-		}
-		e.Res.Count(key, kind+":"+cls, len(p.b) > 0)
-		if i%1499 == 0 {
-			e.Res.Sample(map[string]interface{}{"type": p.ti.Name, "kind": p.cs.Kind, "bytes": trunc(common.Hex(p.b)), "impl": trunc(got), "alloc": alloc})
-		}
-		small := p.cs
-		if len(small.Hex) > 4000 {
-			small.Hex = small.Hex[:4000]
-		}
-		// oracle
-		if strings.HasPrefix(cls, "panic") {
-			e.Res.Violate(common.Violation{Signature: "C05:" + strings.Replace(cls, ":", "-", 1) + ":" + PanicLocus(out), What: "decoding hostile bytes panicked: " + out,
-				Case: common.Case{Stream: "schema", Op: small, Impl: out}})
-		}
-		if alloc > uint64(allocK*len(p.b)+allocC) {
-			e.Res.Violate(common.Violation{Signature: "C05:alloc-unbounded:generated-ReadFrom", What: fmt.Sprintf("decoding %d bytes allocated %d bytes (bound %d·len+%d)", len(p.b), alloc, allocK, allocC),
-				Case: common.Case{Stream: "schema", Op: small, Impl: fmt.Sprint(alloc)}})
-		}
-		e.Res.TracesValidated++
-		if ans[i] == common.NoModel {
-			continue
-		}
-		if cm := CanonModelAnswer(ans[i], len(p.b)); cm != got {
-			e.Res.Diverge(common.Case{Stream: "schema", Op: small, Model: trunc(cm), Impl: trunc(got)})
 		}
 	}
+	flush()
 	if e.Opts.Replay == "" {
 		e.runFatalChildren()
 	}
@@ -466,7 +493,7 @@ func init() {
 		}
 		n := 12
 		if e.Opts.Thorough() {
-			n = 300
+			n = 200
 		}
 		e.RunC05(n)
 		e.Res.Rule = "per generated struct type and random valid encoding: bit flips, byte replacement, truncation, type-nibble substitution, every embedded length replaced by " +
